@@ -151,7 +151,7 @@ CHECKS["C18"] = dict(
 CHECKS["C19"] = dict(
     category="model_checking",
     technique="explicit-state search (BX) over process histories, each replayed in a fresh child process on real client sessions (virtual pipes) and through the real Client against a scripted TLS server",
-    text="Every history of length <= 3 (thorough 4) over {touch the built-in default first, session whose server pushes scheme B / C / an unparsable scheme followed by shaped writes, client request on a new session against a scripted TLS server using B / C}: after a parsable push the session's next packets must have exactly the pushed scheme's write sizes (B and C prescribe one 200- / 300-byte write per packet), sessions created afterwards must start with the adopted scheme and announce its md5 so that the server does not push again, an unparsable push changes nothing and the session keeps working; 180 (thorough ~900) child processes. The alphabet also has a client constructed with a custom scheme, the built-in default text as a pushed scheme, and a retyped scheme (same lines, other text, other md5); plus an exhaustive per-session grid (stop of the announced scheme x stop of the pushed scheme x packets sent before the push). Real-server operations (a real server Session deciding whether to push, with its real text) and 24 spellings of the settings frame read by a real server session (it must push iff the announced md5 differs). A new session must announce the scheme it really uses (preamble padding recorded). DX (<= 2 (3) deviations, one execution at a time): two sessions of one process pushed different schemes at about the same time while one has a writer in mid-packet on a narrow transport; each must end up shaping with its own server's scheme.",
+    text="Every history of length <= 3 (thorough 4) over {touch the built-in default first, session whose server pushes scheme B / C / an unparsable scheme followed by shaped writes, client request on a new session against a scripted TLS server using B / C}: after a parsable push the session's next packets must have exactly the pushed scheme's write sizes (B and C prescribe one 200- / 300-byte write per packet), sessions created afterwards must start with the adopted scheme and announce its md5 so that the server does not push again, an unparsable push changes nothing and the session keeps working; 180 (thorough ~900) child processes. The alphabet also has a client constructed with a custom scheme, the built-in default text as a pushed scheme, and a retyped scheme (same lines, other text, other md5); plus an exhaustive per-session grid (stop of the announced scheme x stop of the pushed scheme x packets sent before the push). Real-server operations (a real server Session deciding whether to push, with its real text) and 24 spellings of the settings frame read by a real server session (it must push iff the announced md5 differs). A new session must announce the scheme it really uses (preamble padding recorded). DX (<= 2 (3) deviations, one execution at a time): two sessions of one process pushed different schemes at about the same time while one has a writer in mid-packet on a narrow transport; each must end up shaping with its own server's scheme; and, on the real Client over the in-memory dialer seam against a pushing scripted TLS server, a session being created while another session's push is handled (<= 1 (2) deviations): every session's preamble padding is line 0 of the scheme whose md5 it announces.",
     note="Trusted: the child mimics bin/client.rs (client constructed once with the process default); the scripted TLS server reads the announced padding-md5 from the Settings frame; write sizes are observed on virtual pipes.",
     design="DESIGN.md §6 C19",
 )
